@@ -45,6 +45,8 @@ def parseOp (w : List String) : Option Op :=
 def step (ds : DS) (op impl : String) : DS × StepOut :=
   match words op with
   | ["case", l] => ({ linked := l == "1" }, { model := "ok" })
+  -- thread-local flavour: the same model (the start request stays queued in the blocked spawner)
+  | ["case", l, "tl"] => ({ linked := l == "1", prefixKey := "tl" }, { model := "ok" })
   | w =>
     match parseOp w with
     | none => (ds, { model := "bad-op" })
